@@ -748,6 +748,36 @@ func VHarnessDry() {
 	}
 }
 
+// VHarnessDryFault: a symbolic history, then a dry run during which one (solver-chosen) os.Open or
+// os.Stat of the up-to-date checks fails with an I/O error: whatever the dry run reports, it has no
+// effects (C13) — and the real build that follows, without faults, behaves as if the dry run had
+// not happened (the C01/C02 oracles of every build).
+func VHarnessDryFault() {
+	vSetup()
+	names := vFunctionNames()
+	top := names[len(names)-1]
+	if vParam("first") == 1 {
+		vBuildOf(top, nil)
+	}
+	vSteps()
+	tn := names[len(names)-1-vChoose("build-target", len(names))]
+	vFail = map[string]bool{}
+	before := vSnapshot()
+	vReadFaultAt = vChoose("read-fault-at", vParam("faults"))
+	vReadFaultSeen, vReadFaulted = 0, false
+	vBuildNo++
+	loadErr, _, crashed := vBuild(vLabelOf(vSpec(tn)), &RunOptions{DryRun: true})
+	vReadFaultAt = -1
+	vAssert(loadErr == nil && !crashed, "C13: a dry run with a read fault does not load or crashes")
+	vCheckDry(before)
+	if vReadFaulted {
+		vReach("faulted-dry-run-checked")
+	}
+	vBroken = map[string]bool{}
+	vBuildOf(tn, nil)
+	vReach("history-done")
+}
+
 func vDirOf(p string) string {
 	i := -1
 	for j := 0; j < len(p); j++ {
